@@ -182,6 +182,80 @@ GENERIC = (TupleV, Closure, FuncRef, ClassRef, ExtRef, ObjV, BoundMethod, SuperV
 ARGS = "args"           # kind of a TupleV whose length / items the interpreter computes with (varargs and what is derived from them)
 
 
+MUTATING_METHODS = {"fill", "sort", "put", "itemset", "resize", "setfield", "setflags", "partition", "byteswap", "append", "extend", "insert", "remove", "pop", "clear",
+                    "reverse", "add", "discard", "update", "setdefault", "popitem", "difference_update", "intersection_update", "symmetric_difference_update"}
+_SELF_COPIES = {}
+
+
+def _noop_self_copies(fnode):
+    """{statement: source name} for the statements `M = N.copy()` / `M = np.array(N)` of `fnode` (N a local or parameter name, M the same name or another one bound
+    nowhere else) after which M is only read: never the base of a subscript or attribute store or of an augmented assignment, never deleted, never the receiver
+    of a mutating method, never handed to `out=` or as the first argument of a numpy function that writes it (np.fill_diagonal, np.put, np.copyto, ...), not
+    captured by a nested function.  For *values* M is then N as it was at that point (ownership is decided elsewhere, on the unchanged statements)."""
+    key = id(fnode)
+    if key in _SELF_COPIES and _SELF_COPIES[key][0] is fnode:
+        return _SELF_COPIES[key][1]
+    out = {}
+    if isinstance(fnode, (ast.FunctionDef, ast.AsyncFunctionDef)):
+        a = fnode.args
+        params = {x.arg for x in a.posonlyargs + a.args + a.kwonlyargs}
+        cands = {}
+        for st in ast.walk(fnode):
+            if isinstance(st, ast.Assign) and len(st.targets) == 1 and isinstance(st.targets[0], ast.Name):
+                n, v = st.targets[0].id, st.value
+                src = None
+                if isinstance(v, ast.Call) and isinstance(v.func, ast.Attribute) and v.func.attr == "copy" and not v.args and not v.keywords:
+                    src = v.func.value
+                elif isinstance(v, ast.Call) and isinstance(v.func, ast.Attribute) and isinstance(v.func.value, ast.Name) and v.func.value.id in ("np", "numpy") and \
+                        v.func.attr in ("array", "copy") and len(v.args) == 1 and not v.keywords:
+                    src = v.args[0]
+                if isinstance(src, ast.Name) and (src.id == n and n in params or src.id != n and n not in params):
+                    cands.setdefault(n, []).append((st, src))
+        for n, sts in cands.items():
+            if len(sts) != 1:
+                continue
+            ok = True
+            for x in ast.walk(fnode):
+                if isinstance(x, ast.Name) and x.id == n and isinstance(x.ctx, (ast.Store, ast.Del)) and x is not sts[0][0].targets[0]:
+                    ok = False
+                elif isinstance(x, (ast.Subscript, ast.Attribute)) and isinstance(x.ctx, (ast.Store, ast.Del)):
+                    b = x.value
+                    while isinstance(b, (ast.Subscript, ast.Attribute)):
+                        b = b.value
+                    if isinstance(b, ast.Name) and b.id == n:
+                        ok = False
+                elif isinstance(x, ast.AugAssign):
+                    b = x.target
+                    while isinstance(b, (ast.Subscript, ast.Attribute)):
+                        b = b.value
+                    if isinstance(b, ast.Name) and b.id == n:
+                        ok = False
+                elif isinstance(x, ast.Call):
+                    f = x.func
+                    if isinstance(f, ast.Attribute) and f.attr in MUTATING_METHODS:
+                        b = f.value
+                        while isinstance(b, (ast.Subscript, ast.Attribute)):
+                            b = b.value
+                        if isinstance(b, ast.Name) and b.id == n:
+                            ok = False
+                    if any(k.arg == "out" for k in x.keywords):
+                        ok = False
+                    if isinstance(f, ast.Attribute) and isinstance(f.value, ast.Name) and f.value.id in ("np", "numpy") and f.attr in (
+                            "fill_diagonal", "put", "place", "putmask", "copyto", "put_along_axis") and x.args and \
+                            any(isinstance(y, ast.Name) and y.id == n for y in ast.walk(x.args[0])):
+                        ok = False
+                elif isinstance(x, (ast.Global, ast.Nonlocal)) and n in x.names:
+                    ok = False
+                elif isinstance(x, (ast.FunctionDef, ast.Lambda)) and x is not fnode and any(isinstance(y, ast.Name) and y.id == n for y in ast.walk(x)):
+                    ok = False          # captured by a nested function: read under another activation
+                elif isinstance(x, (ast.For, ast.comprehension)) and any(isinstance(y, ast.Name) and y.id == n for y in ast.walk(x.target)):
+                    ok = False
+            if ok:
+                out[sts[0][0]] = sts[0][1]
+    _SELF_COPIES[key] = (fnode, out)
+    return out
+
+
 class Ctx:
     """per-activation context"""
 
@@ -1622,7 +1696,15 @@ class Interp:
         env[s.name] = Closure(s, env, ctx)
         return env
 
+    SELF_COPY_NOOP = False      # value domains: `A = A.copy()` of a parameter that is only read afterwards leaves every value as it was
+
     def st_Assign(self, s, env, ctx):
+        if self.SELF_COPY_NOOP and ctx.func is not None and s in _noop_self_copies(ctx.func.node):
+            src = _noop_self_copies(ctx.func.node)[s]
+            if src.id == s.targets[0].id:
+                return env
+            self.assign(s.targets[0], self.ev(src, env, ctx), env, ctx, s)
+            return env
         v = self.ev(s.value, env, ctx)
         for t in s.targets:
             self.assign(t, v, env, ctx, s)
